@@ -79,6 +79,8 @@ ObsInit(C) ==
     sprog     |-> 0,                        \* highest offset transmitted in the first pass
     round     |-> [open |-> FALSE, reqs |-> {}, marker |-> FALSE],
     promptNak |-> FALSE,
+    basis     |-> {},                       \* units held when the pending NAK lists can at the earliest have been built
+    markerOk  |-> TRUE,                     \* metadata was missing when the pending NAK list was built
     finSent   |-> FALSE,
     tx        |-> [k \in TxKinds |-> [n |-> 0, since |-> 0, gapok |-> TRUE, mark |-> 0]],
     finR      |-> NoFin,                    \* the receiver's success / last Finished indication
@@ -185,7 +187,9 @@ Step(o, ev, C) ==
       kaOut == {p \in rOut : p.k = "KeepAlive"}
       nakReqs(p) == {p.reqs[i] : i \in 1 .. Len(p.reqs)}
       missing == AllUnits(C) \ o.held
-      \* NAK round: requests issued since the last PDU reached the receiver
+      \* NAK round: requests issued since time last advanced.  Sending is urgent, so when time
+      \* advances the receiver has flushed every NAK list it built; PDUs arriving meanwhile only
+      \* shrink what is missing.
       roundAfterEmit ==
         IF nakOut # {} THEN
            LET p == CHOOSE q \in nakOut : TRUE
@@ -194,8 +198,7 @@ Step(o, ev, C) ==
                reqs |-> (IF o.round.open THEN o.round.reqs ELSE {}) \cup {r \in rs : r[1] < r[2]},
                marker |-> (o.round.open /\ o.round.marker) \/ (<<0, 0>> \in rs)]
         ELSE o.round
-      roundClosed == tgt = "R" \/ ev.a = "Tick" \/ spawned \/ ~ev.ralive
-                     \/ ev.a = "R_Cmd" \/ ev.a = "R_Timeout"
+      roundClosed == ev.a = "Tick" \/ spawned \/ ~ev.ralive
       round2 == IF roundClosed THEN [open |-> FALSE, reqs |-> {}, marker |-> FALSE] ELSE roundAfterEmit
       \* the round is judged when time starts to pass with nothing having reached the receiver
       judgeRound == /\ ev.a = "Tick" /\ o.round.open /\ o.rxEof /\ ev.ralive
@@ -236,7 +239,7 @@ Step(o, ev, C) ==
       bothEnded == ended2["S"] /\ ended2["R"]
       justEnded == bothEnded /\ ~(o.ended["S"] /\ o.ended["R"])
       nfaults2 == o.nfaults + (IF isFault THEN 1 ELSE 0)
-      suspTime2 == o.suspTime + (IF \E e \in Ents : o.susp[e] THEN dt ELSE 0)
+      suspTime2 == Min2(o.suspTime + (IF \E e \in Ents : o.susp[e] THEN dt ELSE 0), Bound(C) + 1)
       hypBounded == /\ isAck /\ nfaults2 < C.limit /\ o.ncancel = 0 /\ ~cancelNow /\ ~o.adversary
                     /\ suspTime2 < Min2(ToAck(C), Min2(ToNak(C), ToInact(C)))
                     /\ \A e \in Ents : ~excused2[e]
@@ -267,13 +270,16 @@ Step(o, ev, C) ==
              \cup {"C07:EofWrong" : p \in {q \in eofNoErr : ~q.ok}}
              \cup {"C07:EofBeforeData" : p \in {q \in eofNoErr : C.isfile /\ fp2 # N}}
 
-      badReq(p, r) == \/ ~(r[1] < r[2] \/ (r = <<0, 0>> /\ ~o.rxMeta))
+      badReq(p, r) == \/ ~(r[1] < r[2] \/ (r = <<0, 0>> /\ o.markerOk))
                       \/ (r # <<0, 0>> /\ ~(p.s <= r[1] /\ r[2] <= p.e))
                       \/ (o.rxEof /\ r[2] > N)
       v08 == {"C08:NakWellFormed" : p \in {q \in nakOut : ~q.fits \/ ~q.hdr \/ \E r \in nakReqs(q) : badReq(q, r)}}
              \cup {"C08:DeferredQuiet" : p \in {q \in nakOut : isAck /\ C.nakproc = "def" /\ ~o.rxEof /\ ~o.promptNak}}
-             \cup (IF judgeRound /\ (ReqUnits(o.round.reqs) # missing \/ o.round.marker # ~o.rxMeta)
+             \* no missing byte (nor missing metadata) is left out ...
+             \cup (IF judgeRound /\ ~(missing \subseteq ReqUnits(o.round.reqs) /\ (~o.rxMeta => o.round.marker))
                    THEN {"C08:NakCoversMissing"} ELSE {})
+             \* ... and nothing is asked for that was already held when the list could have been built
+             \cup {"C08:NakAsksForHeld" : p \in {q \in nakOut : o.rxEof /\ ReqUnits({x \in nakReqs(q) : x[1] < x[2]}) \cap o.basis # {}}}
 
       v10 == (IF C.isfile /\ (o.ncancel > 0 \/ cancelNow) /\ ev.dest.st # "absent" /\ ~delivered2 THEN {"C10:NoPartialFile"} ELSE {})
              \cup {"C10:CancelEnds" : e \in {x \in Ents : cancel2[x] /\ ~ended2[x] /\ sinceCancel2[x] > Bound(C)}}
@@ -356,6 +362,9 @@ Step(o, ev, C) ==
               nMeta |-> o.nMeta + (IF metaOut # {} THEN 1 ELSE 0),
               sprog |-> sprog2, round |-> round2,
               promptNak |-> (o.promptNak /\ ~spawned) \/ (Delivered(ev, "R", "Prompt") /\ ev.pin.opt = "Nak"),
+              basis |-> IF spawned THEN {}
+                        ELSE IF ev.a = "Tick" \/ (Delivered(ev, "R", "EOF") /\ ~rxEof0) THEN held2 ELSE o.basis,
+              markerOk |-> IF spawned THEN TRUE ELSE IF nakOut # {} THEN ~rxMeta2 ELSE o.markerOk \/ ~rxMeta2,
               finSent |-> (o.finSent /\ ~spawned) \/ finOut # {},
               tx |-> tx2, finR |-> finR2, finPdu |-> finPdu2 ]
   IN [o |-> o2,
